@@ -302,6 +302,53 @@ def ShaOut.bits : ShaOut → Option Nat
   | .bin256 => some 256
   | .passedOn => none
 
+/-! ## alias reuse in JOIN … ON (transforms.py:18 `alias_in_join`) -/
+
+/-- the ON clause of one join, as the rewrite sees it -/
+inductive JoinOn where
+  | noOn                    -- CROSS JOIN, JOIN … USING (..)
+  | aliasLeft (name : Nat)  -- ON <bare column `name`> <op> <expr>
+  | other                   -- a compound (AND/OR), parenthesised or qualified-column ON
+deriving DecidableEq, Repr
+
+/-- is this join's ON rewritten (the bare column replaced by the select-list expression of that alias)? -/
+def rewriteJoin (aliases : List Nat) : JoinOn → Bool
+  | .aliasLeft n => aliases.contains n
+  | _ => false
+
+/-- the loop of the code over the joins of the SELECT, one decision per join -/
+def aliasInJoin (aliases : List Nat) : List JoinOn → List Bool
+  | [] => []
+  | j :: js => rewriteJoin aliases j :: aliasInJoin aliases js
+
+/-- the same loop leaving at the first join it has nothing to do for (`break` instead of falling through) -/
+def aliasInJoinBreak (aliases : List Nat) : List JoinOn → List Bool
+  | [] => []
+  | .aliasLeft n :: js => aliases.contains n :: aliasInJoinBreak aliases js
+  | j :: js => (j :: js).map fun _ => false
+
+/-! ## ARRAY_AGG (transforms.py:58,68: `TO_JSON(ARRAY_AGG(x) FILTER (WHERE x IS NOT NULL))`) -/
+
+/-- NULLs are not collected; DuckDB's aggregate over no rows is NULL -/
+def arrayAggImpl (xs : List (Option Int)) : Option (List Int) :=
+  if (xs.filterMap id).isEmpty then none else some (xs.filterMap id)
+
+/-- `ARRAY_AGG(x) WITHIN GROUP (ORDER BY …)` → `TO_JSON(ARRAY_AGG(x ORDER BY …))`: this path has no NULL filter -/
+def arrayAggWithinImpl (sorted : List (Option Int)) : List (Option Int) := sorted
+
+/-- documented: the non-NULL inputs, an empty ARRAY when there are none -/
+def arrayAggSpec (xs : List (Option Int)) : Option (List Int) := some (xs.filterMap id)
+
+/-! ## DATEDIFF for year / quarter / month: the number of unit boundaries crossed -/
+
+def ymIndex (u : DUnit) (y m : Int) : Int :=
+  match u with
+  | .year => y
+  | .quarter => y * 4 + (m - 1) / 3
+  | _ => y * 12 + m
+
+def dateDiffYM (u : DUnit) (a b : Int × Int) : Int := ymIndex u b.1 b.2 - ymIndex u a.1 a.2
+
 /-! ## TRIM(s, chars) (`trim_cast_varchar` rebuilds the node with `this` only) -/
 
 def stripChars (chars : List Char) (s : List Char) : List Char :=
